@@ -522,9 +522,13 @@ def _get_sort_aux(node):  # noqa: C901
         ]:
             return get_sort(node[2])
         if ident == 'fp':
+            if len(node) != 4:
+                return None
             ew = get_bv_width(node[2])
-            sw = 1 + get_bv_width(node[3])
-            return Node('_', 'FloatingPoint', ew, sw)
+            sw = get_bv_width(node[3])
+            if ew < 0 or sw < 0:
+                return None
+            return Node('_', 'FloatingPoint', ew, sw + 1)
         if ident == 'select':
             asort = get_sort(node[1])
             if is_array_sort(asort):
